@@ -384,12 +384,22 @@ func intBranchDecider(bf *boundsFn) func(ifi *ssa.If) (bool, bool) {
 // mustPassEdgeP additionally prunes branches that the dominating integer
 // facts contradict (decide returns known, value).
 func mustPassEdgeP(f *ssa.Function, target *ssa.BasicBlock, okCond func(cond ssa.Value, truth bool) bool, decide func(ifi *ssa.If) (bool, bool)) bool {
+	return mustPassEdgeStart(f.Blocks[0], target, okCond, decide)
+}
+
+// mustPassEdgeFrom: the same question for the paths that start in block start
+// (used for "every trip round a loop").
+func mustPassEdgeFrom(start, target *ssa.BasicBlock, okCond func(cond ssa.Value, truth bool) bool) bool {
+	return mustPassEdgeStart(start, target, okCond, nil)
+}
+
+func mustPassEdgeStart(start, target *ssa.BasicBlock, okCond func(cond ssa.Value, truth bool) bool, decide func(ifi *ssa.If) (bool, bool)) bool {
 	type node struct {
 		b    *ssa.BasicBlock
 		pred *ssa.BasicBlock
 	}
 	seen := map[node]bool{}
-	work := []node{{f.Blocks[0], nil}}
+	work := []node{{start, nil}}
 	for len(work) > 0 {
 		n := work[len(work)-1]
 		work = work[:len(work)-1]
